@@ -253,11 +253,17 @@ def gen_cuts(R, conn, streams_len, recbounds, policy=None):
     return policy, cuts
 
 
-def gen_net_acts(R, nseg, cfg):
-    """per-segment network actions for one direction.  cfg: dict kind -> percent"""
+def gen_net_acts(R, nseg, cfg, protect_first=False):
+    """per-segment network actions for one direction.  cfg: dict kind -> per-mille.
+    protect_first: the first segment of the direction is never displaced (known finding KF-1 concerns the client's
+    first segment; only C05, which owns that finding, displaces it)"""
     acts = []
     for i in range(nseg):
         for kind, pct in sorted(cfg.items()):
+            if kind.startswith("_"):
+                continue
+            if protect_first and i == 0 and kind in ("delay", "lost_before"):
+                continue
             if pct and R.chance(pct, 1000):
                 if kind == "delay":
                     acts.append([i, "delay", R.range(1, cfg.get("_D", 4))])
